@@ -185,7 +185,7 @@ PROPS = {
                 "interleaving (0-80 yields, optional delay) x seeded schedule; post-conditions after the settle bound S: socket closed, serving call returned, notification, later "
                 "sends return, census of library goroutines (runtime.Stack filtered to library frames) empty; distinct = distinct context-switch-sequence hash; non-trivial = the "
                 "fault actually fired; model_states_visited lists the (role, cause, point) triples reached",
-        "mandatory_probes": ["traffic_in_flight", "cause_inside_message", "write_error", "short_write", "write_deadline", "read_error", "local_close", "handler_stop"],
+        "mandatory_probes": ["traffic_in_flight", "cause_inside_message", "write_error", "short_write", "write_deadline", "read_error", "local_close", "handler_stop", "undecodable_message"],
         "assumptions": ASSUME,
     },
     "C03": {
